@@ -13,4 +13,7 @@ open RV RV.Facts
 /-- `Serve` counts itself under the mutex: the tree is the `.fixed` variant of RV.Model.Server -/
 theorem tie_countedUnderLock : Generated.countedUnderLock ≠ 0 := by decide
 
+/-- `Shutdown` tests and sets the flag inside its critical section: the model's `downEnter` is one step -/
+theorem tie_shutdownFlagUnderLock : Generated.shutdownFlagUnderLock ≠ 0 := by decide
+
 end RV.Facts.C07
